@@ -163,16 +163,18 @@ def run(tier, seed):
         if use_lib:
             open(os.path.join(d, "mylib.sld"), "w").write(LIB_SRC)
         rel = rng.random() < 0.5
-        cases.append({"forms": forms, "fail": fail, "kind": kind, "lib": use_lib, "text": text, "eol": eol, "final": final, "path": path, "rel": rel, "exp": exp,
-                      "arg": os.path.relpath(path, cwd) if rel else path})
+        # a fifth of the programs are named by their bare file name, from their own directory (the directory part of the path is empty then)
+        bare = rng.random() < 0.2
+        cases.append({"forms": forms, "fail": fail, "kind": kind, "lib": use_lib, "text": text, "eol": eol, "final": final, "path": path, "rel": rel or bare, "exp": exp, "bare": bare,
+                      "arg": "prog.scm" if bare else (os.path.relpath(path, cwd) if rel else path), "cli_cwd": d if bare else cwd})
 
     def run_cli(c):
-        p = subprocess.run([cli, c["arg"]], cwd=cwd, stdout=subprocess.PIPE, stderr=subprocess.PIPE, timeout=900)
+        p = subprocess.run([cli, c["arg"]], cwd=c["cli_cwd"], stdout=subprocess.PIPE, stderr=subprocess.PIPE, timeout=900)
         return p.returncode, p.stdout, p.stderr
     with ThreadPoolExecutor(max_workers=core.NCPU) as ex:
         outs = list(ex.map(run_cli, cases))
     # the same text through the library interface (eval_file), from the same unrelated cwd
-    jobs = [{"id": "f%d" % i, "interps": [{"stdlib": False, "natives": False}], "steps": [{"file": c["arg"]}], "fuel": 200000} for i, c in enumerate(cases)]
+    jobs = [{"id": "f%d" % i, "interps": [{"stdlib": False, "natives": False}], "steps": [{"file": c["path"] if c["bare"] else c["arg"]}], "fuel": 200000} for i, c in enumerate(cases)]
     drecs = core.run_jobs(jobs, "dev", timeout=900 if tier == "quick" else 3000, tag="c17", env_extra={"__cwd": cwd})
     # ... and the same TEXT handed to eval as one string (programs that import the library beside the file need the program directory: skipped here)
     sjobs = [{"id": "s%d" % i, "interps": [{"stdlib": False, "natives": False}], "steps": [{"src": c["text"]}], "fuel": 200000} for i, c in enumerate(cases)]
@@ -180,8 +182,8 @@ def run(tier, seed):
     for c, (rc, out, err), rec, srec in zip(cases, outs, drecs, srecs):
         ctx.evaluations += 1
         so = out.decode("utf8", "replace"); se = ANSI.sub("", err.decode("utf8", "replace"))
-        key = "%s|%s|%r|%s|%s|%s" % (c["kind"], c["forms"][c["fail"]] if c["fail"] is not None else "-", c["eol"], c["final"], "rel" if c["rel"] else "abs", c["lib"])
-        base = {"kind": "cli", "failure": c["kind"], "eol": repr(c["eol"]), "final_newline": c["final"], "relative_path": c["rel"], "library": c["lib"], "rc": rc}
+        key = "%s|%s|%r|%s|%s|%s" % (c["kind"], c["forms"][c["fail"]] if c["fail"] is not None else "-", c["eol"], c["final"], "bare" if c["bare"] else ("rel" if c["rel"] else "abs"), c["lib"])
+        base = {"kind": "cli", "failure": c["kind"], "eol": repr(c["eol"]), "final_newline": c["final"], "relative_path": c["rel"], "bare_name": c["bare"], "library": c["lib"], "rc": rc}
         replay = {"text": c["text"], "arg": c["arg"], "lib": c["lib"]}
         if rc == 101 or rc < 0 or "panicked at" in se:
             ctx.violation(dict(base, what="ruschm FILE panicked", stderr=se[-300:], dedupe="panic"), replay); continue
@@ -283,7 +285,7 @@ def replay(path):
     open(p, "w", newline="").write(r.get("text", ""))
     if r.get("lib"):
         open(os.path.join(d, "mylib.sld"), "w").write(LIB_SRC)
-    q = subprocess.run([core.build_cli(), p], stdout=subprocess.PIPE, stderr=subprocess.PIPE)
+    q = subprocess.run([core.build_cli(), "prog.scm" if r.get("arg") == "prog.scm" else p], cwd=d, stdout=subprocess.PIPE, stderr=subprocess.PIPE)
     print(r.get("text")); print("rc", q.returncode); print("stdout", q.stdout); print("stderr", ANSI.sub("", q.stderr.decode("utf8", "replace")))
     shutil.rmtree(d, ignore_errors=True)
     return 0
